@@ -16,7 +16,7 @@ def main(tier, t0):
     tasks += stage_check.tasks_for("C05", tier, scenario="single", sizes=_sizes, cfg={"want_shacl": False, "or_flags": (False, False)}, structure_filter=ors, label="or-statements")
     tasks += stage_check.tasks_for("C05", tier, scenario="single", sizes=_sizes, cfg={"want_shacl": False, "or_flags": (False, True)}, structure_filter=ors, label="redundant-or")
     # long documents written to a file (buffered writer, flushed every 5000 lines): the file holds the whole well-formed document (concrete replays, as C18)
-    tasks += [("harness.api", "run_history", "api/" + n, dict(name=n)) for n in ("file-vs-string", "file-vs-string-10000-lines")]
+    tasks += [("harness.api", "run_history", "api/" + n, dict(name=n)) for n in ("file-vs-string", "file-vs-string-10000-lines", "shacl-shape-map-prefixed-labels")]
     # two classes with the same local name in different namespaces (recorded finding: both shapes get the same label)
     from harness import stage
     tasks += stage_check.tasks_for("C05", tier, scenario="single", sizes=lambda t, k: [k + 1], cfg={"want_shacl": False}, structures=stage.label_clash_structures(), label="label-clash")
